@@ -38,3 +38,77 @@ Proof. exact read_served_by_rw. Qed.
 Print Assumptions C07_promotion_verified.
 Print Assumptions C07_one_rebuilder.
 Print Assumptions C07_rebuilding_not_read.
+
+(** * data half (model: Block.Rebuild -- two replicas on top of Block.Model; proofs: Block.RebuildLemmas,
+    Block.RebuildProofs).  [rb] holds the source [src], the destination [dst] (its files indexed by the
+    source's member positions), the holes queued on either side, the progress of UpdateLUNMap. *)
+From Jiva Require Import Block.Model Block.Lemmas Block.ProofsWrite Block.ProofsOps Block.Corr
+     Block.Rebuild Block.RebuildLemmas Block.RebuildCorr Block.RebuildProofs Block.RebuildAtomic.
+
+(** For every schedule
+      (BothWrite aligned to the 4 KiB block | Copy of blocks of a closed file above the sync point | SrcHole)*
+      with every block of every such file copied at least once;
+      DstReload;
+      (BothWrite of any alignment | SrcHole | DstHole | UlmBegin | UlmPre | UlmMerge)*
+    -- reclamation holes applied or dropped at any time after they were queued, the preload of UpdateLUNMap
+    advancing one block at a time between foreground writes, the merge loop literal -- starting from a state
+    in which the two chains agree at the sync point [c] ([start_ok]: equal images of the prefix ending at
+    member [c]; [c] = 0 for a new replica):
+      the live images are equal;
+      every retained user-created snapshot from the sync point upward has equal images;
+      an automatic snapshot has equal content at every block at which no newer member of the source has an
+      extent (CAVEAT, precise: at a block that a newer layer shadows the source may have reclaimed the
+      snapshot's extent -- it punches under its head -- while the destination, which copied the file earlier
+      or reclaims on its own, may still hold it or may have punched a different one; such a block is never
+      visible in the live volume nor in any user-created snapshot);
+      the destination's block map is well-formed and a full read through it returns the source's image. *)
+Theorem C07_rebuild_converges : forall K c s0 es1 es2, (0 < K)%nat ->
+  start_ok K c s0 ->
+  Forall (pre_ev K c) es1 -> all_copied c s0 es1 ->
+  Forall post_ev es2 ->
+  let s := run true K s0 (es1 ++ DstReload :: es2) in
+  let n := nf (src s) in
+  nf (dst s) = n /\ nblk (dst s) = nblk (src s) /\
+  image K (dst s) n = image K (src s) n /\
+  (forall J, (c <= J < n)%nat -> usr (src s) J = true -> rmd (src s) J = false ->
+             image K (dst s) J = image K (src s) J) /\
+  (forall J b, (c <= J < n)%nat -> (forall i, (J < i <= n)%nat -> fl (src s) i b = None) ->
+               img K (fl (dst s)) J b = img K (fl (src s)) J b) /\
+  wf K (dst s) /\ fst (read_all K (dst s)) = image K (src s) n.
+Proof. exact rebuild_converges. Qed.
+
+(** The hypothesis on the alignment of the writes that arrive before the Reload cannot be dropped: the model
+    -- and the code: replay .work/patches/README, finding wo-rmw-stale -- completes a partial block on the
+    rebuilding replica from that replica's own stale chain. *)
+Theorem C07_rebuild_unaligned_refuted :
+  let s := fst (exec true 8 (init_case true rmw_case) (rc_ev rmw_case)) in
+  reloaded s = true /\ uph s = UDone /\
+  block_of 8 (image 8 (src s) (nf (src s))) 2 = [1; 3; 3; 1; 1; 1; 1; 1]%N /\
+  block_of 8 (image 8 (dst s) (nf (dst s))) 2 = [0; 3; 3; 0; 0; 0; 0; 0]%N /\
+  model_oracle true rmw_case = false.
+Proof. exact rebuild_unaligned_refuted. Qed.
+
+(** Nor can "the chains agree at the sync point": a destination that wrote on its own after the sync point
+    has punched below it (finding diverged-hole-below-syncpoint). *)
+Theorem C07_rebuild_diverged_refuted :
+  let s0 := init_case true diverged_case in
+  let s := fst (exec true 8 s0 (rc_ev diverged_case)) in
+  block_of 8 (image 8 (src s0) 1) 1 = repeat 2%N 8 /\ block_of 8 (image 8 (dst s0) 1) 1 = repeat 0%N 8 /\
+  block_of 8 (image 8 (src s) (nf (src s))) 1 = repeat 2%N 8 /\
+  block_of 8 (image 8 (dst s) (nf (dst s))) 1 = repeat 0%N 8 /\
+  model_oracle true diverged_case = false.
+Proof. exact rebuild_diverged_refuted. Qed.
+
+(** The three phases, run with nothing in between, are the transcription of Server.UpdateLUNMap used by the
+    single-replica properties (Block.Model.update_lun_map): same table, same holes in the same order. *)
+Theorem C07_ulm_phases_are_update_lun_map : forall fx K s,
+  reloaded s = true -> uph s = UIdle -> (1 <= nf (dst s))%nat ->
+  run fx K s (ulm_all (dst s)) =
+  mkrb (src s) (spend s) (fst (update_lun_map (dst s))) (dpend s ++ snd (update_lun_map (dst s)))
+       (lowc s) (wired s) (reloaded s) UDone (drev s).
+Proof. exact Jiva.Block.RebuildAtomic.ulm_all_is_update_lun_map. Qed.
+
+Print Assumptions C07_rebuild_converges.
+Print Assumptions C07_ulm_phases_are_update_lun_map.
+Print Assumptions C07_rebuild_unaligned_refuted.
+Print Assumptions C07_rebuild_diverged_refuted.
